@@ -151,7 +151,7 @@ pub fn c01(tier: Tier) -> i32 {
     // Stream 1: random lookahead-free modes and inputs, all builder paths.
     let n = ctx.scale(60_000, 3_000_000);
     res.merge(run_cases(&ctx, 1, n, |rng, _i, st| {
-        let p = GenParams::default();
+        let p = GenParams::varied(rng);
         let by_index = rng.chance(1, 2);
         let mp = ModeParams {
             min_pats: 1,
@@ -551,7 +551,7 @@ fn la_case(
     with_offsets: bool,
     min_pats: usize,
 ) -> CaseOutcome {
-    let mut p = GenParams::default();
+    let mut p = GenParams::varied(rng);
     p.max_nodes = 8;
     let (cfg, input) = if rng.chance(1, 4) {
         st.count("directed_family");
@@ -615,7 +615,7 @@ fn la_case(
 /// from there ("all scan start offsets including after set_offset").
 fn c04_reset_case(rng: &mut Rng, st: &mut Stats) -> CaseOutcome {
     use scnr::ScannerModeSwitcher;
-    let mut p = GenParams::default();
+    let mut p = GenParams::varied(rng);
     p.max_nodes = 8;
     let (cfg, input) = if rng.chance(1, 4) {
         gen_directed_la(rng)
@@ -724,10 +724,17 @@ pub fn c04(tier: Tier) -> i32 {
     let n2 = ctx.scale(15_000, 1_000_000);
     res.merge(run_cases(&ctx, 2, n2, |rng, _i, st| c04_reset_case(rng, st)));
     res.merge(corpus_lookahead_cases(&ctx, TokOracle::Gate));
+    // Stream 3: lookahead texts of 250 - 140 000 characters (gate oracle on the derivative reference).
+    #[cfg(feature = "hooks")]
+    {
+        let nlong = ctx.scale(64, 2_000);
+        res.merge(run_cases(&ctx, 3, nlong, |rng, _i, st| crate::checks_scale::long_lookahead_case(rng, st, true)));
+    }
     let report = Report::new(
-        "random single-mode configurations mixing patterns with positive, negative and no lookahead (lookahead patterns never nullable), inputs of 0-40 chars from the pattern languages plus noise, scan start offsets on every kind of character boundary via with_offset on a fresh iterator and (stream 2) via set_offset on a used iterator that has already peeked and consumed tokens; plus the directed family (candidate A shorter than B with A's lookahead longer/equal/shorter, failing lookaheads) and the repository's lookahead fixtures. Oracle: step-wise soundness of every reported token (pattern matches its text and its lookahead condition holds at its end) and completeness at every skipped position. Non-trivial: at least one lookahead evaluation took place; distinct by hash of (configuration, input, offset).",
+        "stream 3: lookahead texts of 250 - 140 000 characters (runs after k / m / n tokens, multi-byte included), judged by the derivative-based reference with the gate rule only; stream 1: random single-mode configurations mixing patterns with positive, negative and no lookahead (lookahead patterns never nullable), inputs of 0-40 chars from the pattern languages plus noise, scan start offsets on every kind of character boundary via with_offset on a fresh iterator and (stream 2) via set_offset on a used iterator that has already peeked and consumed tokens; plus the directed family (candidate A shorter than B with A's lookahead longer/equal/shorter, failing lookaheads) and the repository's lookahead fixtures. Oracle: step-wise soundness of every reported token (pattern matches its text and its lookahead condition holds at its end) and completeness at every skipped position. Non-trivial: at least one lookahead evaluation took place; distinct by hash of (configuration, input, offset).",
     )
     .floor("la_pos_satisfied", 2000)
+    .floor("scans_with_a_lookahead_text_longer_than_65535_chars", if cfg!(feature = "hooks") { 20 } else { 0 })
     .floor("la_pos_failed", 2000)
     .floor("la_neg_satisfied", 2000)
     .floor("la_neg_failed", 2000)
@@ -748,7 +755,7 @@ pub fn c05(tier: Tier) -> i32 {
     // all priority orders of small pattern multisets
     let nperm = ctx.scale(3_000, 100_000);
     res.merge(run_cases(&ctx, 2, nperm, |rng, _i, st| {
-        let mut p = GenParams::default();
+        let mut p = GenParams::varied(rng);
         p.max_nodes = 6;
         let cfg0 = gen_la_mode(rng, &p, 2);
         if !guard_roundtrip(&cfg0) {
@@ -807,14 +814,21 @@ pub fn c05(tier: Tier) -> i32 {
         }
         CaseOutcome::Ok
     }));
+    // Stream 3: lookahead texts of 250 - 140 000 characters: extents across 2^8, 2^16 and 2^17.
+    #[cfg(feature = "hooks")]
+    {
+        let nlong = ctx.scale(64, 2_000);
+        res.merge(run_cases(&ctx, 3, nlong, |rng, _i, st| crate::checks_scale::long_lookahead_case(rng, st, false)));
+    }
     let report = Report::new(
-        "random single-mode configurations with >= 2 patterns of which >= 1 has a lookahead, inputs of 0-24 chars; all priority orders (permutations of up to 4 patterns) of sampled pattern multisets; the directed family enumerating the length interleavings (A shorter than B with A's lookahead longer/equal/shorter; failed lookahead before/after a satisfied one). Oracle: every reported token must be among the candidates of maximal extent (own byte length + longest positive-lookahead match) of the first listed pattern among those; span and type must belong to one candidate; panics are captured per scan. Non-trivial: at least one lookahead evaluation; distinct by hash of (configuration, input).",
+        "stream 3: long lookahead texts - candidates such as k(?=[bc]+d) against k[bc]* and k[bc]*d, m+(?!é+x), n(?=(é|€)+) against n(é|€)* in random priority order on inputs whose runs are 250 - 140 000 characters long (extents across 2^8, 2^16, 2^17 bytes, multi-byte included), every token compared with the derivative-based reference (maximal extent, first listed pattern); stream 1: random single-mode configurations with >= 2 patterns of which >= 1 has a lookahead, inputs of 0-24 chars; all priority orders (permutations of up to 4 patterns) of sampled pattern multisets; the directed family enumerating the length interleavings (A shorter than B with A's lookahead longer/equal/shorter; failed lookahead before/after a satisfied one). Oracle: every reported token must be among the candidates of maximal extent (own byte length + longest positive-lookahead match) of the first listed pattern among those; span and type must belong to one candidate; panics are captured per scan. Non-trivial: at least one lookahead evaluation; distinct by hash of (configuration, input).",
     )
     .floor("pos_with_different_extents", 5000)
     .floor("pos_with_equal_extent_different_patterns", 1000)
     .floor("la_pos_failed", 1000)
     .floor("token_selected", 20_000)
     .floor("priority_orders_tried", 5000)
+    .floor("scans_with_a_lookahead_text_longer_than_65535_chars", if cfg!(feature = "hooks") { 20 } else { 0 })
     .assume("lengths are byte lengths; ties among several lengths of one pattern are left open by the statement and any of them is accepted");
     finish(&ctx, res, report)
 }
@@ -914,7 +928,7 @@ pub fn c07(tier: Tier) -> i32 {
     // Stream 1: hostile configurations, inputs up to 60 chars, full stream invariants.
     let n = ctx.scale(60_000, 3_000_000);
     res.merge(run_cases(&ctx, 1, n, |rng, _i, st| {
-        let p = GenParams::default();
+        let p = GenParams::varied(rng);
         let with_la = rng.chance(1, 3);
         let mp = ModeParams {
             min_pats: if rng.chance(1, 20) { 0 } else { 1 },
